@@ -117,6 +117,28 @@ func (fr *Frame) builtin(in *ssa.Call, b *ssa.Builtin) *GVal {
 		}
 	case "append":
 		return fr.appendCall(in)
+	case "copy":
+		// copy(dst, src) where dst is a local region starting at its beginning: the first min(len) elements are replaced
+		dst := fr.val(cc.Args[0])
+		src := fr.val(cc.Args[1])
+		if dst.Reg == nil || !isZeroLit(dst.Off) || ex.st.frozen[dst.Reg] {
+			fresh := dst.Fresh
+			if fresh != TTrue {
+				fr.oblige("frame", "copy-target-fresh", []string{"C06", "C12", "C13"}, boolOr(fresh), in.Pos())
+			}
+			ex.unsupp("copy into a slice without a whole local region")
+			return fr.havocResult(in.Type(), "copy")
+		}
+		srcT := fr.term(src)
+		sl := w.SlLen(srcT)
+		n := Ite(Le(dst.Len, sl), dst.Len, sl)
+		es := w.SliceInfoOfSort(srcT.S).Elem
+		cf := "copied_" + sortIdent(es)
+		as := SArray(SInt, es)
+		ex.p.DeclareFun(cf, []*Sort{as, as, SInt}, as)
+		ex.p.copyAxioms[sortIdent(es)] = es
+		ex.st.cells[dst.Reg] = App(cf, as, ex.st.cells[dst.Reg], w.SlArr(srcT), n)
+		return &GVal{T: n, Typ: in.Type()}
 	case "cap":
 		x := fr.val(cc.Args[0])
 		c := ex.p.FreshConst("cap", SInt)
@@ -327,6 +349,7 @@ func (fr *Frame) contractCall(in *ssa.Call, callee *ssa.Function, c *Contract, a
 		}
 		vars[p.Name()] = g
 	}
+	fr.bindGhosts(c, name, vars, in)
 	before := ex.st.clone()
 	envPre := &Env{fr: fr, vars: vars, st: before, old: before, oldVars: vars}
 	for i, cl := range c.Requires {
@@ -334,18 +357,7 @@ func (fr *Frame) contractCall(in *ssa.Call, callee *ssa.Function, c *Contract, a
 	}
 	// termination of recursion
 	if ex.p.sameSCC(ex.fname, name) {
-		if len(c.Decreases) == 0 || len(ex.measureEntry) == 0 {
-			fr.oblige("term", pre+"/recursive-call-has-measure", []string{"C05"}, TFalse, in.Pos())
-		} else {
-			var now []*Term
-			for _, cl := range c.Decreases {
-				now = append(now, fr.evalTerm(cl.Expr, envPre))
-			}
-			for len(now) < len(ex.measureEntry) {
-				now = append(now, IntLit(0))
-			}
-			fr.oblige("term", pre+"/measure-decreases", []string{"C05"}, lexLess(now, ex.measureEntry[:len(now)]), in.Pos())
-		}
+		fr.checkMeasure(c, pre, envPre, in)
 	}
 	// havoc assigned heap fields at the receiver / pointer parameters
 	for _, a := range c.Assigns {
@@ -485,6 +497,24 @@ func (fr *Frame) dynamicCall(in *ssa.Call) *GVal {
 		}
 	}
 	res := fr.havocResult(in.Type(), "dyncall")
+	// when the function value is the handler field of a table entry, each arm determines the entry:
+	// stated as a lemma obligation (cheap, ground) and then used as a fact
+	entryOf := map[string]*Term{}
+	var holder *Term
+	if len(fv.Args) == 1 && strings.HasSuffix(fv.Head, "_handler") {
+		holder = fv.Args[0]
+		if tbl := ex.p.functionTable(); tbl != nil {
+			arr := ex.p.w.MpVal(tbl)
+			for arr.Head == "store" {
+				ent := arr.Args[2]
+				if ent.S == holder.S {
+					h := ex.p.w.Field(ent, "handler")
+					entryOf[h.Head] = ent
+				}
+				arr = arr.Args[0]
+			}
+		}
+	}
 	var isOne []*Term
 	for _, f := range cands {
 		name := funcDisplayName(f)
@@ -500,11 +530,18 @@ func (fr *Frame) dynamicCall(in *ssa.Call) *GVal {
 		for i, p := range f.Params {
 			vars[p.Name()] = &GVal{T: fr.term(args[i]), Typ: p.Type()}
 		}
+		fr.bindGhosts(c, "dyncall", vars, in)
 		envPre := &Env{fr: fr, vars: vars, st: ex.st, old: ex.st, oldVars: vars}
 		saved := fr.cur
 		fr.cur = And(saved, Eq(fv, id))
+		if ent := entryOf[id.Head]; ent != nil && holder != nil {
+			fr.oblige("requires", "dyncall("+name+")/lemma-entry-determined-by-handler", safetyProps, Eq(holder, ent), in.Pos())
+		}
 		for i, cl := range c.Requires {
 			fr.oblige("requires", "dyncall("+name+")/"+clauseLabel2(cl, "requires", i), cl.Props, fr.evalBool(cl.Expr, envPre), in.Pos())
+		}
+		if ex.p.sameSCC(ex.fname, name) {
+			fr.checkMeasure(c, "dyncall("+name+")", envPre, in)
 		}
 		fr.cur = saved
 		post := map[string]*GVal{}
@@ -602,4 +639,55 @@ func mkRegionOf(fr *Frame, g *GVal, name string, in ssa.Instruction) *GVal {
 		return &GVal{Reg: cell, Off: IntLit(0), Len: ex.p.w.SlLen(g.T), Typ: g.Typ, Fresh: TTrue, NilT: ex.p.w.SlNil(g.T)}
 	}
 	return g
+}
+
+// checkMeasure: a call inside a recursive cycle must go to a strictly smaller measure.
+func (fr *Frame) checkMeasure(c *Contract, pre string, envPre *Env, in ssa.Instruction) {
+	ex := fr.ex
+	if len(c.Decreases) == 0 || len(ex.measureEntry) == 0 {
+		fr.oblige("term", pre+"/recursive-call-has-measure", []string{"C05"}, TFalse, in.Pos())
+		return
+	}
+	var now []*Term
+	for _, cl := range c.Decreases {
+		now = append(now, fr.evalTerm(cl.Expr, envPre))
+	}
+	old := ex.measureEntry
+	for len(now) < len(old) {
+		now = append(now, IntLit(0))
+	}
+	for len(old) < len(now) {
+		old = append(append([]*Term{}, old...), IntLit(0))
+	}
+	fr.oblige("term", pre+"/measure-decreases", []string{"C05"}, lexLess(now, old), in.Pos())
+}
+
+// bindGhosts evaluates the caller's bindings for the callee's ghost parameters.
+func (fr *Frame) bindGhosts(c *Contract, calleeKey string, vars map[string]*GVal, in ssa.Instruction) {
+	ex := fr.ex
+	if len(c.GhostParams) == 0 {
+		return
+	}
+	var binds map[string]*CExpr
+	if ex.c != nil && ex.c.CallBind != nil {
+		binds = ex.c.CallBind[calleeKey]
+		if binds == nil {
+			binds = ex.c.CallBind[c.Func]
+		}
+	}
+	for _, gp := range c.GhostParams {
+		e := binds[gp[0]]
+		if e == nil {
+			ex.unsupp("no binding for ghost parameter %s of %s at its call in %s", gp[0], c.Func, ex.fname)
+			gs := sortByName(ex.p.w, ex.p, gp[1])
+			if gs == nil {
+				gs = SInt
+			}
+			vars[gp[0]] = &GVal{T: ex.p.FreshConst("ghost_"+gp[0], gs)}
+			continue
+		}
+		env := fr.entryEnv()
+		env.dbgHead = in.Block()
+		vars[gp[0]] = &GVal{T: fr.evalTerm(e, env), Typ: typeByName(ex.p, gp[1])}
+	}
 }
